@@ -20,3 +20,16 @@ def c05_classpath_symbol_written(case, what):
         return False
     op, path = case["requests"][case["upto"] - 1]
     return path[0] in _xref_targets(case) and "after earlier requests on the same tree" in what
+
+
+@known_predicate
+def c05_dotted_unqualified_import(case, what):
+    """C05-F2 (fixed by ceefff9; a fixed entry suppresses nothing): the library has an unqualified import and a component
+    whose type is a dotted name, and the differing request repeats an earlier request on the same tree."""
+    import re
+    text = case.get("text") or ""
+    if "requests" not in case or "upto" not in case or not re.search(r"import\s+[\w.]+\.\*\s*;", text):
+        return False
+    if not re.search(r"^\s*\w+\.\w[\w.]*\s+\w+\s*;", text, re.M):
+        return False
+    return "after earlier requests on the same tree" in what
